@@ -81,6 +81,29 @@ def r1(ctx) -> None:
         ctx.ob("C16-R1", f"{cls}/labels-read-as-text", bool(lab_str), ld, rd[0] if rd else ld.node,
                "labels are text: the reader must pin the label column to str, otherwise pandas infers numbers for purely numeric labels "
                "('1.10' -> 1.1, '01' -> 1)")
+        def pinned(col):
+            r_ = isinstance(dt, ast.Dict) and any(lib.const_str(k) == col and norm(v) == "str" for k, v in zip(dt.keys, dt.values)) or (
+                dt is not None and norm(dt) == "str")
+            return r_ or (isinstance(conv, ast.Dict) and any(lib.const_str(k) == col and norm(v) == "str" for k, v in zip(conv.keys, conv.values)))
+
+        ctx.ob("C16-R1", f"{cls}/expressions-read-as-text", bool(pinned("expression")), ld, rd[0] if rd else ld.node,
+               "expressions are text: a column holding only numeric expressions ('3') is inferred as float and then dropped as 'not a string'")
+        if reader_fn == "pd.read_csv":
+            fp = kwarg(rd[0], "float_precision") if rd else None
+            ctx.ob("C16-R1", f"{cls}/floats-parsed-round-trip", lib.const_str(fp) == "round_trip", ld, rd[0] if rd else ld.node,
+                   "pandas' default C float parser is not correctly rounded (about one value in five is one ULP off); text written with "
+                   "repr precision comes back equal only with float_precision='round_trip'")
+        ff = kwarg(wr[0], "float_format") if wr else None
+        ctx.ob("C16-R1", f"{cls}/floats-written-in-full", ff is None, sv, wr[0] if wr else sv.node,
+               "the writer does not shorten floats (no float_format): the default is the shortest text that round-trips")
+        # the label order is part of the parameter set: no row re-ordering / aggregating operation on either side
+        REORDER = {"groupby", "sort_values", "sort_index", "pivot", "pivot_table", "sample", "nlargest", "nsmallest", "merge", "melt", "stack", "unstack"}
+        for side, f_ in (("reader", ld), ("writer", sv)):
+            bad = [c for c in lib.calls(f_) if (isinstance(c.func, ast.Attribute) and c.func.attr in REORDER)
+                   or (isinstance(c.func, ast.Name) and c.func.id in ("sorted", "set", "frozenset", "reversed"))]
+            ctx.ob("C16-R1", f"{cls}/{side}-keeps-row-order", not bad, f_, bad[0] if bad else f_.node,
+                   "rows are parameters in declaration order; grouping, sorting or set-building re-orders or merges them (groupby sorts by key)",
+                   construct=lib.short(bad[0], 100) if bad else f"def {f_.name}")
         idx = kwarg(wr[0], "index") if wr else None
         ctx.ob("C16-R1", f"{cls}/no-index-column", isinstance(idx, ast.Constant) and idx.value is False, sv, wr[0] if wr else sv.node,
                "the data-frame index is not written (it would come back as an unknown column)")
@@ -162,6 +185,15 @@ def r1(ctx) -> None:
     ctx.ob("C16-R1", "Parameter.as_dict/init-attributes-only", ok, ad, ad.node,
            "the written columns are exactly the attributes the constructor accepts (the derived transformed_expression is excluded)",
            construct="asdict(self, filter=exclude(transformed_expression))")
+    REORDER_ = {"groupby", "sort_values", "sort_index", "pivot", "pivot_table", "sample", "nlargest", "nsmallest", "merge", "melt", "stack", "unstack", "sort"}
+    for nm in ("Parameters.from_dataframe", "Parameters.to_dataframe", "Parameters.from_parameter_dict_list", "Parameters.to_parameter_dict_list",
+               "Parameters.from_list", "Parameters.from_dict", "Parameters.all"):
+        f_ = ctx.fn(PRS, nm)
+        bad = [c for c in lib.calls(f_) if (isinstance(c.func, ast.Attribute) and c.func.attr in REORDER_)
+               or (isinstance(c.func, ast.Name) and c.func.id in ("sorted", "set", "frozenset", "reversed"))]
+        ctx.ob("C16-R1", f"{nm}/keeps-declaration-order", not bad, f_, bad[0] if bad else f_.node,
+               "conversion between parameters, dict lists and data frames keeps the declaration order of the labels",
+               construct=lib.short(bad[0], 100) if bad else f"def {f_.name}")
     fdf = ctx.fn(PRS, "Parameters.from_dataframe")
     txt = lib.xfn(fdf, ctx.repo)  # temporaries looked through
     ok = "df['expression'] = [expr if isinstance(expr, str) else None for expr in df['expression'].to_list()]" in txt \
